@@ -41,6 +41,7 @@ GROUPS = {
                'TimeoutHandler.on_hard_timeout', 'TimeoutHandler._trywaitkill', 'TimeoutHandler.handle_timeouts',
                'TimeoutHandler.handle_event', 'TimeoutHandler.body', 'ApplyResult.handle_timeout',
                'Pool._start_timeout_handler'],
+    'drain': ['ResultHandler.finish_at_shutdown'],
     'worker_signals': ['soft_timeout_sighandler', 'Worker.after_fork'],
     'close': ['Pool.close', 'Pool.join', 'TaskHandler.__init__', 'TaskHandler.body', 'TaskHandler.tell_others',
               'TaskHandler.on_stop_not_started', 'ResultHandler.finish_at_shutdown', 'ResultHandler.body',
@@ -55,11 +56,11 @@ GROUPS = {
 # which groups each property's theorems are about
 BY_PROPERTY = {
     'C01': ['jobs', 'setup'],
-    'C04': ['loss', 'jobs', 'setup'],
+    'C04': ['loss', 'jobs', 'drain', 'setup'],
     'C05': ['limits', 'jobs', 'setup'],
     'C06': ['limits', 'worker_signals', 'setup'],
     'C07': ['close', 'jobs', 'size', 'setup'],
-    'C08': ['terminate', 'loss', 'setup'],
+    'C08': ['terminate', 'loss', 'close', 'setup'],
     'C09': ['size', 'loss', 'setup'],
     'C10': ['jobs', 'loss', 'close', 'setup'],
     'C11': ['size', 'close', 'setup'],
